@@ -5,9 +5,7 @@ sys.path.insert(0, os.path.dirname(os.path.abspath(__file__)))
 import props as P
 
 NOT_APPLICABLE = {
-    "C04": "concurrency under every C11 schedule: Kani executes atomics sequentially and has no threads, Verus would need its own permission types on rewritten code; no contract within reach of the installed verifiers can express weak-memory interleavings of the real code (the reference-count protocol itself - count == number of handles, release by the last owner only, no access after release - is proved sequentially under C03)",
     "C18": "state after unwinding from a panicking callback: neither verifier models unwinding (Kani cuts the path at the panic, Verus has no panics), so 'after unwinding the target holds ...' and 'nothing is leaked' cannot be stated as a postcondition of the real code",
-    "C19": "serde / arbitrary integrations are feature-gated wrappers around from(&str) / as_str() whose other side is the dependency's trait machinery (Serializer / Visitor / Unstructured); no contract harness for them has been built, the functions they call are under contract in C01/C09/C16",
 }
 
 def main():
